@@ -50,6 +50,9 @@ CFGS = [
     # they agree to three decimals, yet the row is kept under the first and demoted under the second
     {"confidence_threshold": 0.8668, "reaction_col": "reaction", "id_col": "id"},
     {"confidence_threshold": 0.8672, "reaction_col": "reaction", "id_col": "id"},
+    # the public `columns` attribute widened by a pass-through column of the dictionary inputs (it selects what is reported,
+    # not what is computed: an entry written under the default columns must serve this configuration and vice versa)
+    {"confidence_threshold": 0, "reaction_col": "reaction", "id_col": "id", "columns_extra": ["note"]},
 ]
 INPUTS = {
     "A": ["C>>C", "CC(=O)C>>CC(O)C", "CCO>>CC=O", "xx>>C"],  # balanced / rule-based / malformed: never reaches MCS
@@ -265,6 +268,7 @@ class World:
                 n_jobs=1, cache=cache, cache_dir=self.dir, confidence_threshold=c["confidence_threshold"],
                 reaction_col=c["reaction_col"], id_col=c["id_col"],
             )
+            b.columns = list(b.columns) + list(c.get("columns_extra", []))
             return b
         key = (c["reaction_col"], c["id_col"], cache)
         if key not in self.bal:
@@ -273,6 +277,9 @@ class World:
                 reaction_col=c["reaction_col"], id_col=c["id_col"],
             )
         b = self.bal[key]
+        if not hasattr(b, "_c12_default_columns"):
+            b._c12_default_columns = list(b.columns)
+        b.columns = list(b._c12_default_columns) + list(c.get("columns_extra", []))
         b.confidence_threshold = c["confidence_threshold"]
         if cache:
             b.cache_dir = self.dir
@@ -636,6 +643,8 @@ REGRESSION = {
     "threshold-within-rounding": [R(5, "B"), R(6, "B"), R(5, "B"), R(6, "B", 1), R(5, "B", 1)],
     # a batch is a sequence: the same rows in another order are another batch
     "same-rows-other-order": [R(0, "B"), R(0, "H"), R(0, "G"), R(0, "I"), R(0, "H", 2), R(0, "B", 2)],
+    # what is reported (`columns`) is not part of the entry: narrow-then-wide and wide-then-narrow over dictionary inputs
+    "columns-widened-later": [R(0, "C", form="dict"), R(7, "C", form="dict"), R(0, "C", form="dict"), R(7, "B", 2, form="dict"), R(0, "B", 2, form="dict")],
     "column-names": [R(0, "A"), R(3, "A"), R(4, "A"), R(3, "A", form="dict"), R(0, "A", form="dict")],
     # f8ec0af: a truncated entry made the next run raise JSONDecodeError
     "truncated-entry": [R(0, "A"), T(0, "A", 0, "half"), R(0, "A"), R(0, "A")],
